@@ -12,6 +12,10 @@ Decided clauses (the guards the passes rest on):
       try_eliminate_{if,while,for} is preceded by contains_hoisted_declarations(discarded)==false (or by the absence
       of the discarded branch), try_eliminate_for additionally by init().is_none(); the visitor that looks for
       hoisted declarations overrides var + all four function-declaration forms
+  R5  the folder evaluates each operator with the routine the VM uses for it: per operator variant, the JsValue /
+      Number / JsBigInt routines called on the folder's match arm equal those of the opcode handler the bytecompiler
+      emits for that variant (tables extracted from constant_fold_*_expr, compile_unary/compile_binary and
+      <Opcode>::operation); the few decomposition differences are audited pairs pinned on both sides
 """
 from facts import (cn, callee, cname, roots, op_local, taint, arg_hits, place_fields, bool_switch, bool_origin)
 
@@ -284,6 +288,132 @@ def r4(db, rep):
                    loc=decl["span"])
 
 
+ROUTINE_FAMILIES = ("boa_engine::value::", "boa_engine::builtins::number::Number", "boa_engine::bigint::JsBigInt")
+NOT_A_ROUTINE = {"new", "from", "into", "clone", "variant", "undefined", "null", "drop", "nan", "is_undefined"}
+OP_ENUMS = ["UnaryOp", "ArithmeticOp", "BitwiseOp", "RelationalOp"]
+# (operator, folder routines, VM routines) that differ by decomposition only; each pins both sides. Audited by reading.
+AUDITED_EQUIV = {
+    ("UnaryOp::Minus", ("JsValue::neg",), ("JsBigInt::neg", "JsValue::to_numeric")):
+        "JsValue::neg on a literal = ToNumeric then negate (string → -StringToNumber, bigint → JsBigInt::neg); no objects among literals",
+    ("UnaryOp::Not", ("JsValue::not",), ("JsValue::to_boolean",)):
+        "JsValue::not is `!self.to_boolean()`",
+    ("RelationalOp::NotEqual", ("JsValue::equals",), ("JsValue::not_equals",)):
+        "folder negates equals(); JsValue::not_equals is `!equals`",
+}
+# operators the folder leaves to the VM (or folds without evaluating the operand): no routine on the folder side
+NOT_FOLDED = {"UnaryOp::Delete": "folds to `true` only for literals (no reference)", "UnaryOp::Void": "folds to undefined",
+              "RelationalOp::In": "kept", "RelationalOp::InstanceOf": "kept"}
+
+
+def _routines(f, blocks):
+    out = set()
+    for b in blocks:
+        t = f.blocks[b]["t"]
+        if t["t"] == "call":
+            c = callee(t) or ""
+            if any(x in c for x in ROUTINE_FAMILIES) and cn(t).split("::")[-1] not in NOT_A_ROUTINE:
+                out.add(cn(t))
+    return out
+
+
+def _arm_table(db, f, enum_name, collect):
+    """{variant: collect(f, blocks exclusive to that variant's arm)} for the match on `enum_name` in f (None if absent)"""
+    adts = [a for k, a in db.adts.items() if k.startswith("boa_ast::") and k.endswith("::" + enum_name)]
+    if not adts:
+        return None
+    adt = adts[0]
+    for sb in f._rpo():
+        tt = f.blocks[sb]["t"]
+        if tt["t"] != "switch":
+            continue
+        l = op_local(tt["o"])
+        d = f.single_def(l) if l is not None else None
+        if not d or d[1] == "t" or d[2].get("k") != "discr":
+            continue
+        if ("::" + enum_name) not in f.locals[d[2]["p"][0]]:
+            continue
+        if len(tt["vals"]) < len(adt["variants"]) - 1:
+            continue          # an `if let`/`matches!` on one variant, not the operator match
+        reach = {}
+        for i, v in enumerate(adt["variants"]):
+            tgt = tt["tgts"][tt["vals"].index(str(i))] if str(i) in tt["vals"] else tt["tgts"][-1]
+            reach[v["name"]] = f.reach_from([tgt], avoid={sb})
+        res = {}
+        for n, r in reach.items():
+            others = set().union(*[x for m, x in reach.items() if m != n])
+            res[n] = collect(f, r - others)
+        return res
+    return None
+
+
+def _camel(snake):
+    return "".join(x.capitalize() for x in snake.split("_"))
+
+
+def r5(db, rep):
+    rep.rule("R5", "per operator, the constant folder calls the same value routines as the opcode handler the compiler emits "
+                   "for it (or an audited equivalent pair): a fold can never succeed, or produce a value, where the VM would "
+                   "throw or produce another")
+    folder = {}
+    for name in ("constant_fold_unary_expr", "constant_fold_binary_expr"):
+        fs = [f for f in db.fns.values() if f.id.startswith(PASS) and f.name == name]
+        if not rep.anchor("R5", f"ConstantFolding::{name}", fs):
+            return
+        for e in OP_ENUMS:
+            t = _arm_table(db, fs[0], e, _routines)
+            if t:
+                folder[e] = t
+    emits = {}
+
+    def emit_calls(f, blocks):
+        return {cn(f.blocks[b]["t"]).split("::")[-1] for b in blocks
+                if f.blocks[b]["t"]["t"] == "call" and cn(f.blocks[b]["t"]).startswith("BytecodeEmitter::emit_")}
+    for name in ("compile_unary", "compile_binary_arithmetic", "compile_binary_bitwise", "compile_binary_relational"):
+        fs = [f for f in db.fns.values() if f.id.startswith("boa_engine::bytecompiler") and f.name == name and "{closure" not in f.id]
+        if not rep.anchor("R5", f"ByteCompiler::{name}", fs):
+            return
+        for g in db.all_nested(fs[0]):
+            for e in OP_ENUMS:
+                if e in emits:
+                    continue
+                t = _arm_table(db, g, e, emit_calls)
+                if t:
+                    emits[e] = t
+    n = 0
+    for e in OP_ENUMS:
+        if not rep.anchor("R5", f"operator match on {e} in the folder", folder.get(e)) or \
+                not rep.anchor("R5", f"operator match on {e} in the bytecompiler", emits.get(e)):
+            continue
+        for v, froutines in sorted(folder[e].items()):
+            op = f"{e}::{v}"
+            if not froutines:
+                rep.ob("R5", f"{op}:not-folded", op in NOT_FOLDED,
+                       f"the folder's arm for {op} no longer evaluates anything although it used to (table out of date?)")
+                continue
+            n += 1
+            ems = sorted(x for x in emits[e].get(v, ()) if x not in ("emit_move", "emit_jump", "emit_store_undefined"))
+            handlers = []
+            for em in ems:
+                hn = _camel(em[len("emit_"):])
+                handlers += [h for h in db.fns.values() if h.id.startswith("boa_engine::vm::opcode")
+                             and h.id.endswith(f"::{hn}::operation")]
+            if not handlers:
+                rep.ob("R5", f"{op}:handler-found", False,
+                       f"no opcode handler found for {op} (compiler emits {ems}) — cannot compare the folder with the VM")
+                continue
+            vroutines = set()
+            for h in handlers:
+                vroutines |= {r for r in _routines(h, h.reachable()) if not r.endswith("_fast")}
+            same = froutines == vroutines
+            audited = (op, tuple(sorted(froutines)), tuple(sorted(vroutines))) in AUDITED_EQUIV
+            rep.ob("R5", f"{op}:folder-matches-vm", same or audited,
+                   f"constant folding evaluates {op} with {sorted(froutines)} but the VM ({'/'.join(_camel(x[5:]) for x in ems)}) "
+                   f"uses {sorted(vroutines)}: with the optimizer on, a literal operand can fold to a value where the "
+                   f"unoptimized program throws or computes something else (e.g. `+1n` must stay a TypeError)",
+                   loc=handlers[0].span)
+    rep.floor("R5", "folded operators compared with their opcode handler", n, 25)
+
+
 def run(db, rep, tier):
     lit = variant_index(db, EXPR, "Literal")
     if not rep.anchor("R1", "boa_ast::expression::Expression::Literal", lit is not None):
@@ -292,4 +422,5 @@ def run(db, rep, tier):
     r2(db, rep, lit)
     r3(db, rep)
     r4(db, rep)
+    r5(db, rep)
     rep.assumptions += ["the Expression enum has no explicit discriminants (variant index = discriminant)"]
